@@ -403,19 +403,32 @@ func genSegmap(r *vlib.R, emit func(string)) {
 			emit("segmap len")
 		case x < 91:
 			emit("segmap reach")
-		case x < 96:
+		case x < 93:
 			emit("segmap dump")
-		case x < 98:
+		case x < 94:
 			// the segment of a present key, a random one, or out of range
 			i := r.Intn(sm.SegmentCount() + 2)
 			if r.Bool() && len(sRef) > 0 {
 				i = int(cache.VerifSegIndex(sm, pickPresent(r, sRef, p)))
 			}
 			emit(fmt.Sprintf("segmap clearseg %d", i))
-		case x < 99:
+		case x < 95:
 			emit("segmap clear")
 		default:
-			emit("segmap dump")
+			// a sweep with one write landing mid-way: insert of a fresh key,
+			// update or delete of a stored one
+			j := r.Intn(len(sRef) + 2)
+			if r.Chance(2, 3) {
+				j = r.Intn(3)
+			}
+			switch r.Intn(3) {
+			case 0:
+				emit(fmt.Sprintf("segmap sweep %d set %d %d", j, pickAbsent(r, sRef, p), val(r)))
+			case 1:
+				emit(fmt.Sprintf("segmap sweep %d set %d %d", j, p.pick(r), val(r)))
+			default:
+				emit(fmt.Sprintf("segmap sweep %d del %d 0", j, pickPresent(r, sRef, p)))
+			}
 		}
 	}
 	emit("segmap len")
@@ -517,8 +530,18 @@ func genCache(r *vlib.R, emit func(string)) {
 			emit(fmt.Sprintf("cache cad %d %d", k, tokenFor(r, k)))
 		case x < 91:
 			emit("cache len")
-		case x < 94:
+		case x < 92:
 			emit("cache reach")
+		case x < 97:
+			j := r.Intn(len(cRef) + 2)
+			if r.Chance(2, 3) {
+				j = r.Intn(3)
+			}
+			if r.Chance(2, 3) {
+				emit(fmt.Sprintf("cache sweep %d add %d %d", j, pickAbsent(r, cRef, p), tok()))
+			} else {
+				emit(fmt.Sprintf("cache sweep %d remove %d 0", j, key()))
+			}
 		default:
 			emit("cache dump")
 		}
@@ -531,15 +554,19 @@ func genCache(r *vlib.R, emit func(string)) {
 // ---------------------------------------------------------------- lim
 
 func genLim(r *vlib.R, emit func(string)) {
-	emit(fmt.Sprintf("lim new %d", r.Intn(7)))
+	// rate 0 = burst 0 (every bucket empty from the start), 1 = one query
+	// empties it, 10 = the usual case
+	rate := vlib.Pick(r, []int{0, 1, 1, 10})
+	emit(fmt.Sprintf("lim new %d %d", r.Intn(7), rate))
 	pool := []uint64{0, 1, 2, 3, hugeB}
-	for len(pool) < 10 {
+	for len(pool) < 12 {
 		pool = append(pool, r.U64())
 	}
-	nops := r.Range(20, 60)
+	spendAll := r.Chance(1, 3) // every client spends its burst right away
+	nops := r.Range(20, 70)
 	for i := 0; i < nops; i++ {
-		switch x := r.Intn(10); {
-		case x < 7:
+		switch x := r.Intn(20); {
+		case x < 12:
 			k := vlib.Pick(r, pool)
 			emit(fmt.Sprintf("lim get %d", k))
 			var v []uint64
@@ -547,8 +574,19 @@ func genLim(r *vlib.R, emit func(string)) {
 				v = lPend.victims
 			}
 			emit(fmt.Sprintf("lim evicted %d %s", k, joinKeys(v)))
-		case x < 9:
+			if spendAll || r.Chance(1, 4) {
+				emit(fmt.Sprintf("lim spend %d", k))
+			}
+		case x < 14:
 			emit(fmt.Sprintf("lim has %d", vlib.Pick(r, pool)))
+		case x < 16:
+			emit(fmt.Sprintf("lim spend %d", vlib.Pick(r, pool)))
+		case x < 17:
+			emit(fmt.Sprintf("lim cookie %d", vlib.Pick(r, pool)))
+		case x < 18:
+			emit("lim cleanup none")
+		case x < 19 && r.Chance(1, 3):
+			emit("lim cleanup all")
 		default:
 			emit("lim len")
 		}
@@ -566,8 +604,12 @@ func genLimChurn(r *vlib.R, tier string, emit func(string)) {
 	if tier == "thorough" {
 		fresh = 30000
 	}
-	emit(fmt.Sprintf("lim new %d", mx))
+	emit(fmt.Sprintf("lim new %d 10", mx))
 	emit(fmt.Sprintf("lim churn %d %d %d", mx, fresh, r.U64()>>1))
+	// limiter state must not matter: rate 0 (burst 0), and clients that spend
+	// their whole burst at once (every stored bucket is empty)
+	emit(fmt.Sprintf("lim churn %d %d %d 0 f", r.Range(2, 1300), 2500, r.U64()>>1))
+	emit(fmt.Sprintf("lim churn %d %d %d %d t", r.Range(2, 1300), 2500, r.U64()>>1, vlib.Pick(r, []int{1, 3, 10})))
 	// boundary: exactly 1000 / 1001 entries (the sampling starts above 1000)
 	emit(fmt.Sprintf("lim churn %d %d %d", vlib.Pick(r, []int{999, 1000, 1001, 1002}), 3000, r.U64()>>1))
 }
